@@ -540,6 +540,22 @@ def run_batch(ctx, mods, model, cases, asyn, tag):
         wires.append([0, cs_eff(c, asyn) if cs_eff(c, asyn) < 3000 else len(c['body']) + 100,
                       w_cfg(c['cfg'], len(c['body'])), c['boundary'], [w_action(a) for a in c['script']], c['body']])
     mruns = [r_run(v) for v in model.run_many(wires)]
+    # the same parser loop running on the modelled buffered readers of C14 (ModelReaders.v): must
+    # agree with the cursor-level model (C13_multipart_chunking_independent) and with the real code
+    rwires = []
+    for c, w in zip(cases, wires):
+        if asyn:
+            rwires.append([6, w[1], w[2], w[3], w[4], [list(x) for x in c['chunks']]])
+        else:
+            rwires.append([5, w[1], w[2], w[3], w[4], w[5], c['sched']])
+    rruns = [r_run(v) for v in model.run_many(rwires)]
+    for c, mr, rr in zip(cases, mruns, rruns):
+        if mr != rr:
+            ctx.violation('reader-model-vs-cursor-model', dict(case_detail(c, which), cursor_model=jsonable(mr),
+                                                                reader_model=jsonable(rr),
+                                                                broken='C13.multipart_chunking_independent'),
+                          found_input=False, key='rm-' + which)
+            break
     for im, mr in zip(impls, mruns):
         for j, (hs, d) in enumerate(im[0]):
             if hs is None:   # the private header dict is gone: headers are judged via the public view only
